@@ -643,7 +643,7 @@ def kani_phase(pid, tier, units):
             for u in units:
                 lost = set(u.get('isolated') or {}) | set(u.get('dropped_hints') or {})
                 if u['unit'] == h.get('unit') and ((u['status'] == 'undecided' and any(x.startswith(('front-end', 'extraction', 'verus produced')) for x in u['undecided']))
-                                                   or any(f in lost or any(k.endswith('::' + f) or k == f for k in lost) for f in h.get('functions', []))):
+                                                   or any(any(k == f or k.endswith('::' + f) or k.endswith(' ' + f) or k.endswith('::' + f.split('::')[-1]) and f.split('::')[0] in k for k in lost) for f in h.get('functions', []))):
                     chosen.append((h, 'fallback'))
                     break
     def one(hw):
